@@ -107,3 +107,14 @@ package signappx
 //@   on call (*pkcs7.SignedData).Verify(_, _, skip) ret (s, e): cmsOK = (e == nil && !skip)
 //@   on call bytes.Equal(a, b) ret (r): same = r && sameslice(b, sig.Signature.Certificate.Raw)
 //@   ensures @a_present_catalog_is_cms_verified_and_signed_by_the_package_certificate ret0 == nil && zf != nil ==> cmsOK && same
+//@
+//@ func verifyBundle
+//@   property C11 C02
+//@   ghost bad bool = false
+//@   before call (*archive/zip.File).DataOffset(_): assert @the_package_index_of_a_member_is_a_position_in_the_manifest_never_the_already_seen_marker 0 <= pkgIndex
+//@   before call Verify(src, n, skip): assert @nested_package_verified_with_the_callers_digest_choice skip == skipDigests
+//@   on call Verify(_, _, _) ret (s, e): bad = bad || e != nil
+//@   ensures @no_nested_package_that_fails_verification_is_tolerated ret0 == nil ==> !bad
+//@   loop 0 sig "for i, pkg := range bundle.Packages" invariant !bad
+//@   loop 1 sig "for _, zf := range files" invariant !bad
+//@   loop 2 sig "for name, unseen := range packages" invariant !bad
